@@ -121,8 +121,26 @@ let cmd_export_geo (x : sx) : sx =
       L [sx_of_bool (e = cached)]
   | _ -> failwith "export_geo: (deep heap cached)"
 
+(* session: (heap root steps), step = (C k) copy | (E k) export | (O k op) mutation through root k.
+   Output per step: indexes of the roots alive before the step whose report changed *)
+let cmd_session (x : sx) : sx =
+  match x with
+  | L [h; d; steps] ->
+      let step_of = function
+        | L [A "C"; k] -> C19SCopy (nat_of_sx k)
+        | L [A "E"; k] -> C19SExport (nat_of_sx k)
+        | L [A "O"; k; o] -> C19SOp (nat_of_sx k, op_of_sx o)
+        | _ -> failwith "step" in
+      let w = ref (heap_of_sx h, [nat_of_sx d]) and outs = ref [] in
+      List.iter (fun s ->
+        let w' = c19_sstep c19_sflags_current !w (step_of s) in
+        outs := sx_of_list sx_of_nat (c19_changed_roots !w w') :: !outs;
+        w := w') (match steps with L l -> l | _ -> failwith "steps");
+      L [L (List.rev !outs); A (string_of_int (List.length (snd !w)))]
+  | _ -> failwith "session: (heap root steps)"
+
 let commands : (string * (sx -> sx)) list = [
   "topology", cmd_topology; "ugrid", cmd_ugrid; "adopt", cmd_adopt; "table", cmd_table;
   "copy", cmd_copy; "export_ugrid", cmd_export_ugrid; "export_table", cmd_export_table;
-  "export_geo", cmd_export_geo;
+  "export_geo", cmd_export_geo; "session", cmd_session;
 ]
